@@ -28,7 +28,9 @@ PROP = dict(
     regen=['mesgdef', 'profiletables13'],
     theorems=['Fit.C13.C13_tables_wf', 'Fit.C13.C13_tables_expressible', 'Fit.C13.C13_tables_match_factory', 'Fit.C13.C13_std_factory_ok', 'Fit.C13.C13_zero_time',
               'Fit.C13.C13_mesg_struct_mesg', 'Fit.C13.C13_struct_mesg_struct', 'Fit.C13.C13_no_panic', 'Fit.C13.C13_unknown_kept',
-              'Fit.C13.C13_nil_fieldbase_panics', 'Fit.C13.C13_slot_read_emit', 'Fit.C13.C13_all_messages', 'Fit.C13.C13_mark_as_expanded', 'Fit.C13.C13_spec_valid_is_protocol_valid'],
+              'Fit.C13.C13_nil_fieldbase_panics', 'Fit.C13.C13_slot_read_emit', 'Fit.C13.C13_all_messages', 'Fit.C13.C13_mark_as_expanded', 'Fit.C13.C13_spec_valid_is_protocol_valid',
+              'Fit.C13.C13_normal_idempotent', 'Fit.C13.C13_normal_is_fixed_point', 'Fit.C13.C13_spec_valid_fixed_arrays',
+              'Fit.C13.C13_mesg_struct_mesg_partial', 'Fit.C13.C13_KF_witnesses', 'Fit.C13.C13_full_is_false'],
     families=[dict(name='typed', spec=True)],
     trusted_base=STD_TRUST + [
         "fitharness regen mesgdef: the per-message tables (slot kinds, accepted value type, read/emit field number, default, sentinel, emission order, guard, expanded-bitmap bound, eligible numbers) are obtained from the COMPILED code by reflection over the structs and by probing Reset/ToMesg/MarkAsExpandedField/IsExpandedField with one field per number 0..255 x 24 value types and candidate contents per slot; a behaviour the table cannot express fails the translator",
